@@ -181,6 +181,12 @@ Definition udivides (K : ring) (is_prime : bool) (p q : list Z) : option bool :=
       end
   end end.
 
+(* case kind `umultiple M p d`: the dividend is the product p*d in Z_M[x] (lp_upolynomial_mul: the integer product,
+   coefficients normalised in the ring, leading zeros dropped), so a quotient exists BY CONSTRUCTION and
+   lp_upolynomial_divides(p, p*d) has to answer true - in every coefficient ring, composite moduli included. *)
+Definition umul_ring (K : ring) (p d : list Z) : list Z := pnorm (map (ring_norm K) (pmul p d)).
+Definition umultiple_expected (K : ring) (p d : list Z) : list Z * bool := (umul_ring K p d, true).
+
 (* ====================================================================================== Part II *)
 
 Definition cpoly := list mpoly.          (* coefficients of x^0, x^1, ... ; entries free of x *)
@@ -465,4 +471,24 @@ Definition lcm_standin (a b : mpoly) : mpoly :=
   match mp_top a, mp_top b with
   | None, None => mp_const (Z.lcm (mp_num a) (mp_num b))
   | _, _ => let m := mp_mul a b in if mp_lc_sgn m <? 0 then mp_neg m else m
+  end.
+
+(* ====================================================================================== Part III
+   Divisibility in a context over a PRIME FIELD Z_p (lp_polynomial_divides with ctx->K = Z_p).  The
+   multivariate division code is not modelled over Z_p; this case kind is DECIDED BY CONSTRUCTION: the dividend
+   is B = A*Q + R (computed by the library in the Z_p context), where - after reduction mod p - A is not constant
+   and R is zero or of lower degree than A in A's main variable x.  F_p[all other variables] is an integral
+   domain D, and in D[x] a representation B = A*Q + R with deg_x R < deg_x A is unique, so A | B iff R = 0
+   (theorem C02_pdivides_decision).  None = the case is outside this domain. *)
+Definition mp_modp (p : Z) (a : mpoly) : mpoly := mp_map_coeff (ring_norm (Some p)) a.
+Definition pdivides_dividend (p : Z) (A Q R : mpoly) : mpoly := mp_modp p (mp_add (mp_mul A Q) R).
+Definition pdivides_expected (p : Z) (A R : mpoly) : option bool :=
+  let A' := mp_modp p A in
+  let R' := mp_modp p R in
+  match mp_top A' with
+  | None => None
+  | Some x =>
+    if mp_is_zero R' then Some true
+    else if (mp_degree x R' <? mp_degree x A')%N then Some false
+    else None
   end.
